@@ -466,11 +466,10 @@ fn parse_external_id(s: &mut Stream) -> Result<bool> {
         let id = s.slice_back(start);
 
         s.consume_spaces()?;
-        parse_external_literal(s)?;
-
         if id == "SYSTEM" {
-            // Ok
+            parse_external_literal(s)?;
         } else {
+            parse_pubid_literal(s)?;
             s.consume_spaces()?;
             parse_external_literal(s)?;
         }
@@ -484,13 +483,27 @@ fn parse_external_id(s: &mut Stream) -> Result<bool> {
 }
 
 // SystemLiteral ::= ('"' [^"]* '"') | ("'" [^']* "'")
-// PubidLiteral  ::= '"' PubidChar* '"' | "'" (PubidChar - "'")* "'"
 fn parse_external_literal(s: &mut Stream) -> Result<()> {
     let quote = s.consume_quote()?;
     let start = s.pos();
     let value = s.consume_bytes(|c| c != quote);
     is_xml_str(value, start, s)?;
     s.consume_byte(quote)
+}
+
+// PubidLiteral ::= '"' PubidChar* '"' | "'" (PubidChar - "'")* "'"
+// PubidChar    ::= #x20 | #xD | #xA | [a-zA-Z0-9] | [-'()+,./:=?;!*#@$_%]
+fn parse_pubid_literal(s: &mut Stream) -> Result<()> {
+    let quote = s.consume_quote()?;
+    s.skip_bytes(|c| {
+        c != quote && (c.is_ascii_alphanumeric() || b" \r\n-'()+,./:=?;!*#@$_%".contains(&c))
+    });
+    if s.curr_byte()? != quote {
+        return Err(Error::InvalidExternalID(s.gen_text_pos()));
+    }
+
+    s.advance(1);
+    Ok(())
 }
 
 // EntityDecl  ::= GEDecl | PEDecl
